@@ -87,8 +87,8 @@ PClose(ps) == [ps |-> [ps EXCEPT !.closed = TRUE], rep |-> IF ps.exps # <<>> THE
    the messages are processed in order until the first one that does not succeed.
    parts[i] is the partition chosen for the i-th message (only the processed ones matter).
    Result: per message 0 = not processed, else its offset / -1; the returned error id.   *)
-RECURSIVE PBatchRun(_, _, _, _, _, _)
-PBatchRun(cf, ps, es, ms, ps_parts, acc) ==
+RECURSIVE PBatchRun(_, _, _, _, _)
+PBatchRun(cf, es, ms, ps_parts, acc) ==
   \* acc = [ps, offs (seq), err, rep, parts (seq of chosen partitions, -1 = not processed)]
   IF es = <<>> \/ acc.err # "-" THEN acc
   ELSE
@@ -103,7 +103,7 @@ PBatchRun(cf, ps, es, ms, ps_parts, acc) ==
        ELSE IF ~Succeeds(e.kind) THEN
          [acc EXCEPT !.ps = st1, !.err = ErrId("e", e.id), !.offs = Append(@, -1), !.parts = Append(@, p)]
        ELSE
-         PBatchRun(cf, ps, Tail(es), Tail(ms), Tail(ps_parts),
+         PBatchRun(cf, Tail(es), Tail(ms), Tail(ps_parts),
                    [acc EXCEPT !.ps = [st1 EXCEPT !.last = @ + 1], !.offs = Append(@, st1.last + 1), !.parts = Append(@, p)])
 
 PBatch(cf, ps, ms, parts) ==
@@ -113,7 +113,7 @@ PBatch(cf, ps, ms, parts) ==
   ELSE
     LET es == SubSeq(ps.exps, 1, n)
         ps0 == [ps EXCEPT !.exps = SubSeq(@, n + 1, Len(@))]
-        r == PBatchRun(cf, ps0, es, ms, parts, [ps |-> ps0, offs |-> <<>>, err |-> "-", rep |-> <<>>, parts |-> <<>>])
+        r == PBatchRun(cf, es, ms, parts, [ps |-> ps0, offs |-> <<>>, err |-> "-", rep |-> <<>>, parts |-> <<>>])
     IN [ps |-> r.ps, took |-> n, offs |-> r.offs, parts |-> r.parts, err |-> r.err, rep |-> r.rep]
 
 -----------------------------------------------------------------------------
